@@ -518,11 +518,12 @@ def oracle_loglik_history(inp):
   for lg in (False, True):
     x, y, noise = [list(r) for r in inp["x"]], list(inp["y"]), list(inp["noise"])
     ll = build(x, y, noise, lg)
-    last = first
+    last, pieces = first, []
     for j, step in enumerate([["set", first]] + inp["history"]):
       if step[0] == "append":
         ll.historical_data.append_historical_data(numpy.array(step[1], dtype=float), numpy.array(step[2], dtype=float), numpy.array(step[3], dtype=float))
         x, y, noise = x + [list(r) for r in step[1]], y + list(step[2]), noise + list(step[3])
+        pieces.append(step)
         continue
       vec = list(step[1]) if step[0] == "set" else last
       last = vec
@@ -538,7 +539,12 @@ def oracle_loglik_history(inp):
       if len(read) != len(vec) or any(abs(a - float(b)) > 1e-12 * max(1.0, abs(float(b))) for a, b in zip(read, send)):
         return fail("set then get is not the identity on a live object", read, [float(v) for v in send], when)
       try:
-        fresh = build(x, y, noise, lg)
+        # the fresh object receives the data in the SAME pieces: a kernel matrix at the edge of double-precision definiteness factors or not depending on the
+        # rounding of its entries, which depends on the memory layout the container ends with (thorough tier, seed 31337: 15 noise-free points, one-piece copy
+        # LinAlgError, three-piece copy factored) - only bit-identical data makes 'cannot be factored' a fact about the matrix rather than about the copy
+        fresh = build(inp["x"], inp["y"], inp["noise"], lg)
+        for p in pieces:
+          fresh.historical_data.append_historical_data(numpy.array(p[1], dtype=float), numpy.array(p[2], dtype=float), numpy.array(p[3], dtype=float))
         fresh.hyperparameters = send
       except numpy.linalg.LinAlgError:
         return fail("a live object accepted a hyperparameter vector (normal return) although the kernel matrix it names on the data held cannot be factored: "
